@@ -171,6 +171,10 @@ def case_gen(draw):
         st.sampled_from([0, max(0, b - 1), b, b + 1, 2 * b, 2 * b + 1, 3 * b]),
         st.integers(0, 60), st.integers(0, 60), st.integers(0, 300), st.integers(0, 5000)))
     rows = min(rows, 5000)
+    if draw(st.integers(0, 5)) == 0:
+        # a batch size beyond CPython's cached small ints (the default is 1024) and a row count that fills the last batch exactly
+        b = draw(st.one_of(st.integers(257, 2000), st.sampled_from([257, 512, 1024])))
+        rows = b * draw(st.integers(1, max(1, 5000 // b)))
     cols = draw(st.lists(st.sampled_from(sorted(COLS)), min_size=1, max_size=5, unique=True))
     return {'rows': rows, 'dump_batch': b, 'load_batch': draw(st.one_of(st.integers(1, 8), st.integers(1, 2000))),
             'row_group': draw(st.sampled_from([None, None, 1, 3, 100])), 'compression': draw(st.sampled_from(['NONE', 'snappy', 'gzip', 'zstd'])),
